@@ -29,12 +29,16 @@ if "--mutants" in sys.argv:
         if (not ids or pid in ids) and (V / "vf" / "props" / f"{pid.lower()}.py").exists():
             for m in sorted(d.glob("*.diff")):
                 targets.append((f"{pid}/{m.stem}", pid, m))
+own = {}
 for name, pid, patch in targets:
     r = subprocess.run([str(V / "tools" / "seeded.py"), str(patch), pid, "quick"],
                        capture_output=True, text=True)
     first = [ln for ln in r.stdout.splitlines() if ln.startswith(("KILLED", "SURVIVED", "PATCH"))]
     sigs = [ln.split("signature:")[1].strip() for ln in r.stdout.splitlines() if "signature:" in ln]
     verdict = first[0].split()[0] if first else "ERROR"
-    res[name] = {"property": pid, "verdict": verdict, "signatures": sigs[:4]}
+    own[name] = {"property": pid, "verdict": verdict, "signatures": sigs[:4]}
     print(f"{verdict:20s} {name:45s} {', '.join(sigs[:2])}", flush=True)
+    # merge with the file as it is now (several evaluations may run side by side)
+    res = json.loads(res_p.read_text()) if res_p.exists() else {}
+    res.update(own)
     res_p.write_text(json.dumps(res, indent=1, sort_keys=True) + "\n")
